@@ -89,7 +89,7 @@ def install(lib):
     def _isinstance(it, a, k, n):
         v = it.ctx.force(a[0])
         t = it.ctx.force(a[1])
-        names = [x.name for x in (t.items if isinstance(t, VTuple) else [t])]
+        names = [getattr(x, 'name', '<external class>') for x in (t.items if isinstance(t, VTuple) else [t])]
         if isinstance(v, VExc):
             if v.attrs.get('opaque'):
                 raise Unsupported('isinstance of unknown exception', n)
@@ -561,6 +561,7 @@ def install(lib):
         f = ufun('py_strip_ws', S, S)
         r = f(s.t)
         it.ctx.assume(z3.Length(r) <= z3.Length(s.t))
+        it.ctx.assume(f(r) == r)
         return VStr(r)
     sm['strip'] = _strip
 
@@ -573,7 +574,10 @@ def install(lib):
         if len(a) == 1:
             it.engine.assumed.add('A-strlib: str.split() (whitespace) as uninterpreted py_split_ws; tokens are non-empty')
             f = ufun('py_split_ws', S, SeqS)
+            st_ = ufun('py_strip_ws', S, S)
             r = f(s.t)
+            # split() yields no token  <=>  the string is all whitespace  <=>  strip() is empty
+            it.ctx.assume((z3.Length(r) == 0) == (z3.Length(st_(s.t)) == 0))
             return VCell(VSeq(r, TokenStr, 'list'), 'list')
         sep = it.ctx.force(a[1])
         if len(a) == 2 and is_conc(sep):
@@ -1060,6 +1064,24 @@ def install(lib):
     for nm in dir(_errno):
         if nm.startswith('E'):
             er[nm] = VInt(getattr(_errno, nm))
+
+    # ------------------------------------------------------------ io
+    iom = lib.modules.setdefault('io', {})
+
+    def _stringio(it, a, k, n):
+        content = it.ctx.force(a[0]) if a else VStr('')
+        from .values import _other
+        o = VOpaque(_other('stringio', content.t), 'other')
+        o.content = content
+        rd = VFunc('StringIO.read', lambda itp, aa, kk, nn: o.content)
+        rd.bind = False
+        o.attrs = {'read': rd}
+
+        def cm(itp, node):
+            return (lambda: o), (lambda exc: False)
+        o.cm = cm
+        return o
+    iom['StringIO'] = VFunc('io.StringIO', _stringio)
 
     # ------------------------------------------------------------ re (A-re)
     rem = lib.modules.setdefault('re', {})
